@@ -553,10 +553,19 @@ where
                 Ok(ScanItem::Object(rf, p)) => {
                     // (the printed form of a stream shows the size of its data only: add a digest of the bytes the scan hands out)
                     let data = match &p {
-                        Primitive::Stream(s) => match s.raw_data(&r) {
-                            Ok(d) => format!(" data={}", bytes_s(&d)),
-                            Err(e) => format!(" data=ERR:{}", err_variant(&e)),
-                        },
+                        Primitive::Stream(s) => {
+                            let raw = match s.raw_data(&r) {
+                                Ok(d) => format!(" data={}", bytes_s(&d)),
+                                Err(e) => format!(" data=ERR:{}", err_variant(&e)),
+                            };
+                            // the typed view of the scanned stream (a superseded revision of an object has the
+                            // number of the current one: its decoded data must still be its own)
+                            let decoded = match Stream::<()>::from_primitive(p.clone(), &r).and_then(|st| st.data(&r)) {
+                                Ok(d) => format!(" decoded={}", bytes_s(&d)),
+                                Err(e) => format!(" decoded=ERR:{}", err_variant(&e)),
+                            };
+                            format!("{}{}", raw, decoded)
+                        }
                         _ => String::new(),
                     };
                     items.push(format!("obj {} {} {}{}", rf.id, rf.gen, crate::common::show_val(&prim_to_val_hashed(&p, &r)), data))
